@@ -57,6 +57,14 @@ struct State {
 };
 inline State& st() { static State s; return s; }
 inline void flag(unsigned f) { st().flags |= f; }
+// start of a case / after the final report: release whatever the previous case leaked through talloc (it has been
+// reported by then) so that LeakSanitizer's end-of-process report is not attributed to an unrelated case
+inline void reset_tracking() {
+  State& s = st();
+  for (auto& kv : s.blocks) std::free(reinterpret_cast<void*>(kv.first));
+  s.blocks.clear(); s.live.clear();
+  s.live_items = 0; s.item_slots = 0; s.live_bytes = 0; s.item_bytes = 0; s.flags = 0; s.throw_countdown = -1;
+}
 
 // ---- instrumented item -------------------------------------------------------------------------
 class Item {
